@@ -160,3 +160,120 @@ have := @jac_cols_spec _ _ _ _ _ _ um num_jaccol Phi D FF _ _ _ _ _ _ _ ej.
 by case: hb' => -> _ ->; rewrite /num_jaccol eP.
 Qed.
 End EndToEnd.
+
+(* ------------------------------------------------------------------------------------------ *)
+(* fit_with_statistics end to end (one right-hand side): the statistics of a successful run are *)
+(* the exact specification evaluated at the final parameters and the final coefficients         *)
+Section EndToEndStats.
+Variable F : realFieldType.
+Variables (n m : nat).
+Variables (V St : Type).
+Variable um : umodel V (smx F) St.
+Variables (Phi : V -> smx F) (D : nat -> V -> smx F).
+Hypothesis FF : faulty_functional um Phi D.
+Variable np : nat.
+Hypothesis hnp : forall st, um_nparams um st = np.   (* parameter_count() is a constant of the model *)
+
+Notation num_problem := (num_problem F St).
+Notation num_cache := (num_cache F).
+
+Definition with_st (p : num_problem) (st : St) : num_problem :=
+  {| p_st := st; p_Yw := p_Yw p; p_eps := p_eps p; p_w := p_w p; p_cached := p_cached p |}.
+
+(* the derivative matrices k, k+1, ..., k+cnt-1; None as soon as one evaluation fails *)
+Fixpoint collect_derivs (st : St) (k cnt : nat) : St * option (seq (smx F)) :=
+  match cnt with
+  | 0 => (st, Some [::])
+  | S c' => let '(st1, d) := um_deriv um st k in
+            match d with
+            | None => (st1, None)
+            | Some dk => let '(st2, r) := collect_derivs st1 (S k) c' in (st2, omap (cons dk) r)
+            end
+  end.
+
+Lemma collect_derivs_spec st k cnt st' Ds :
+  collect_derivs st k cnt = (st', Some Ds) ->
+  um_params um st' = um_params um st /\ Ds = [seq D i (um_params um st) | i <- iota k cnt].
+Proof.
+elim: cnt st k st' Ds => [|c' IH] st k st' Ds /=; first by case=> <- <-.
+case ed: (um_deriv um st k) => [st1 [dk|]] //.
+case ec: (collect_derivs st1 k.+1 c') => [st2 [r|]] //= [<- <-].
+have [hp hd] := ff_deriv FF _ _ ed; have [hp2 ->] := IH _ _ _ _ ec.
+by rewrite hp2 hp (hd _ erefl).
+Qed.
+
+(* statistics/mod.rs try_calculate as the problem sees it: one evaluation and P derivative calls for the model-function
+   Jacobian, one more evaluation for the weighted residuals, then the numeric content (Model/Numeric.spec_stats: guard
+   N > M + P, degrees of freedom, reduced chi^2, covariance through the certified inverse).  [y] are the observations as
+   supplied; any failing model call or a None of spec_stats is a statistics error *)
+Definition num_stats (y : seq F) (p : num_problem) (c : num_cache)
+  : num_problem * option (stats_spec F) :=
+  let '(C, _, _) := c in
+  let np := um_nparams um (p_st p) in
+  let '(st1, phi1) := um_eval um (p_st p) in
+  match phi1 with
+  | None => (with_st p st1, None)
+  | Some P1 =>
+      let '(st2, ds) := collect_derivs st1 0 np in
+      match ds with
+      | None => (with_st p st2, None)
+      | Some Ds =>
+          let '(st3, phi2) := um_eval um st2 in
+          match phi2 with
+          | None => (with_st p st3, None)
+          | Some _ => (with_st p st3, spec_stats n m np (p_w p) P1 Ds y (head [::] C))
+          end
+      end
+  end.
+
+Lemma num_stats_spec y (p p2 : num_problem) C R P st :
+  num_stats y p (C, R, P) = (p2, Some st) ->
+  [/\ params um p2 = params um p, p_w p2 = p_w p, p_Yw p2 = p_Yw p, p_cached p2 = p_cached p
+    & spec_stats n m np (p_w p) (Phi (params um p))
+        [seq D k (params um p) | k <- iota 0 np] y (head [::] C) = Some st].
+Proof.
+rewrite /num_stats /params hnp.
+case e1: (um_eval um (p_st p)) => [st1 [P1|]] //.
+case ed: (collect_derivs st1 0 _) => [st2 [Ds|]] //.
+case e2: (um_eval um st2) => [st3 [P2|]] // [<- hst].
+have [hp1 hP1] := ff_eval FF _ e1; have [hpd hDs] := collect_derivs_spec ed.
+have [hp2 _] := ff_eval FF _ e2.
+split=> //=; first by rewrite hp2 hpd hp1.
+by move: hst; rewrite (hP1 _ erefl) hDs hp1.
+Qed.
+
+Variable jaccol : option (seq F) -> num_cache -> smx F -> option (seq F).
+
+(* C12 / C13 as one statement about the whole pipeline: whenever fit_with_statistics returns Ok — for ANY script of
+   optimizer decisions and ANY (failing) model honouring the trait contract — the termination was successful, the
+   problem handed back shows coefficients C that are the least-squares coefficients for the parameters a it reports,
+   and the statistics are exactly spec_stats at (Phi a, D_k a, y, C): N > M + P, dof = N - M - P, chi^2 dof = ||r_w||^2,
+   r_w = W (y - Phi c), Cov = chi^2 (H^T H)^-1 with H = W [Phi | D_k c]  (Proofs/NumericP.spec_stats_sound) *)
+Theorem stats_end_to_end w y (dec : num_cache -> num_cache -> bool) (script : list (choice V))
+        (p p2 : num_problem) (r : report V num_cache) c0 st :
+  p_w p = w -> p_Yw p = wscale w [:: y] ->
+  coherent um (num_solve n m) Phi p -> p_cached p = Some c0 ->
+  fit_with_statistics um (num_solve n m) jaccol dec (num_stats y) script p = Some (FSOk p2 r st) ->
+  exists C R P,
+    let a := params um p2 in
+    [/\ successful (termination r) = true, p_cached p2 = Some (C, R, P),
+        spec_coeffs n m w (Phi a) [:: y] = Some C
+      & spec_stats n m np w (Phi a) [seq D k a | k <- iota 0 np] y (head [::] C) = Some st].
+Proof.
+move=> hpw hpY co hc0; rewrite /fit_with_statistics.
+case ef: (fit _ _ _ _ _ _) => [[p' r'|p' r']|] //.
+have [hmin hsucc] := proj1 (fit_ok_iff um (num_solve n m) jaccol dec script p p' r') ef.
+case hc: (p_cached p') => [[[C R] P]|] //.
+case es: (num_stats y p' (C, R, P)) => [p3 [s'|]] // [e3 er est]; subst p3 r' s'.
+have hpost := @minimize_post _ _ _ _ _ _ _ um (num_solve n m) jaccol dec Phi D FF
+                unit (fun _ _ => True) (fun _ => tt) (fun _ => I) (fun _ _ _ _ _ => I)
+                (fun _ _ _ => I) script p p' r c0 co hc0 hmin.
+case: hpost => co' [fY [_ [fw _]]].
+have hb' : built_from w [:: y] p' by split; rewrite ?fw ?fY.
+have [hC _ eP] := coherent_state hb' co' hc.
+have [ep2 ew2 eY2 ec2 hst] := num_stats_spec es.
+exists C, R, P => /=; split=> //; first by rewrite ec2.
+- by rewrite ep2.
+- by move: hst; rewrite ep2 fw hpw.
+Qed.
+End EndToEndStats.
